@@ -483,7 +483,8 @@ pub fn prop_e2e(c: &E2eCase) -> CaseResult {
                 let mut expect6: std::collections::BTreeSet<(std::net::Ipv6Addr, u16)> = Default::default();
                 let n_ann = 4 + (v[1] % 4) as usize;
                 for i in 0..n_ann {
-                    let conn = if i == 0 { 0 } else { ((v[2] >> (i % 8)) & 1) as usize };
+                    // the first upstream connection is re-used at once, the second opened next, the rest generated
+                    let conn = match i { 0 | 1 => 0, 2 => 1, _ => ((v[2] >> (i % 8)) & 1) as usize };
                     let port = 2000 + i as u16 * 7 + (c.port_a % 1000);
                     let decoy = std::net::Ipv4Addr::new(203, 0, 113, i as u8 + 1);
                     let (hdr, is_v6) = match (v[3] as usize + i) % 4 {
